@@ -844,6 +844,7 @@ def _consistent(literals):
     for l in s:
         if neg(l) in s:
             return False
+    s_nodes, s_R = {}, None          # closure of the signed domain, used to relate it to the unsigned one
     for dom in ('f', 's', 'u'):
         nodes = {}
         le = set()
@@ -882,6 +883,38 @@ def _consistent(literals):
                     le.add((ib, ia))
         if not used:
             continue
+        if dom == 's':
+            nid(sp.Integer(0))          # reference point for the sign of the other nodes
+        if dom == 'u' and s_R is not None:
+            # a value that is negative as a signed number is, read as unsigned, above every non-negative one; among
+            # non-negative values the two orders coincide
+            zi = s_nodes.get(sp.Integer(0))
+
+            def sgn(x):
+                if x.is_Number:
+                    return 'nonneg' if x >= 0 else 'neg'
+                i_ = s_nodes.get(x)
+                if i_ is None or zi is None:
+                    return None
+                if s_R[i_][zi] == 1:
+                    return 'neg'
+                if s_R[zi][i_] != 9:
+                    return 'nonneg'
+                return None
+            items_u = list(nodes.items())
+            for x, i in items_u:
+                for y, j in items_u:
+                    if i == j:
+                        continue
+                    sx_, sy_ = sgn(x), sgn(y)
+                    if sx_ == 'neg' and sy_ == 'nonneg' and not x.is_Number:
+                        lt.add((j, i))
+                    if sx_ == 'nonneg' and sy_ == 'nonneg' and x in s_nodes and y in s_nodes:
+                        r_ = s_R[s_nodes[x]][s_nodes[y]]
+                        if r_ == 1:
+                            lt.add((i, j))
+                        elif r_ == 0:
+                            le.add((i, j))
         # numeric constants are ordered among themselves (unsigned domain: only non-negative ones)
         consts = [(x, i) for x, i in nodes.items() if x.is_Number and (dom != 'u' or x >= 0)]
         for x, i in consts:
@@ -960,6 +993,8 @@ def _consistent(literals):
         for i in range(n):
             if R[i][i] == 1:
                 return False
+        if dom == 's':
+            s_nodes, s_R = dict(nodes), R
         for i, j in ne:
             if i == j or (R[i][j] != INF and R[j][i] != INF):
                 if i == j or (R[i][j] == 0 and R[j][i] == 0):
